@@ -91,3 +91,16 @@ Print Assumptions C02_language_sorted.
 Print Assumptions C02_membership.
 Print Assumptions C02_language_unfold.
 Print Assumptions C02_nonvacuous.
+
+(* ---------- composition with the builder and codec theorems ---------- *)
+Require Import FstV.Builder FstV.Fst FstV.CodecSpec FstV.proofs.Closed FstV.proofs.StreamProofs FstV.proofs.ReaderProofs.
+
+(* end to end: on the bytes a builder writes for ANY key list, values, type and cache geometry *)
+Theorem C02_on_built_maps : forall summer ty rows cols kvs,
+  input_ok kvs -> ty < U64 -> (forall l, summer l < 4294967296) ->
+  exists bs, build_map summer ty rows cols kvs = Ok bs /\
+    forall k, Forall (fun b => b < 256) k ->
+      api_get bs k = Ok (lookup kvs k) /\
+      api_contains bs k = Ok (match lookup kvs k with Some _ => true | None => false end).
+Proof. exact C02_closed. Qed.
+Print Assumptions C02_on_built_maps.
